@@ -87,6 +87,43 @@ def get_base(t: Type[Any]) -> Dict[str, Any]:
     raise TypeError(f"Got unexpected type: {t}")
 
 
+def _choice_to_json(match: Any) -> Serializable:
+    """the JSON form of a value a predicate compares against"""
+    match_t = type(match)
+    if match_t is str or match_t is int or match_t is type(None) or match_t is bool:
+        return match  # type: ignore[no-any-return]
+    elif match_t is float:
+        return _finite(match)
+    elif match_t is date or match_t is datetime:
+        return match.isoformat()  # type: ignore[no-any-return]
+    elif match_t is Decimal or match_t is UUID:
+        return str(match)
+    elif match_t is bytes:
+        try:
+            return match.decode("utf-8")  # type: ignore[no-any-return]
+        except UnicodeDecodeError:
+            raise TypeError("bytes that are not utf-8 text cannot be described")
+    elif match_t is tuple:
+        return [_choice_to_json(m) for m in match]
+    else:
+        raise TypeError(f"got unexpected type: {match_t}")
+
+
+def _finite(val: float) -> float:
+    if val != val or val in (float("inf"), float("-inf")):
+        raise TypeError("non-finite floats cannot be described in JSON")
+    return val
+
+
+def _bound_to_json(bound: Any) -> Serializable:
+    bound_t = type(bound)
+    if bound_t is int:
+        return bound  # type: ignore[no-any-return]
+    elif bound_t is float:
+        return _finite(bound)
+    raise TypeError(f"got unexpected type: {bound_t}")
+
+
 def string_schema(
     to_schema_fn: ValidatorToSchema, validator: StringValidator
 ) -> Dict[str, Serializable]:
@@ -310,7 +347,7 @@ def generate_schema_predicate(
     elif isinstance(pred, ExactLength):
         return {"minLength": pred.length, "maxLength": pred.length}
     elif isinstance(pred, Choices):
-        return {"enum": (list(sorted(pred.choices)))}
+        return {"enum": [_choice_to_json(c) for c in sorted(pred.choices)]}
     elif isinstance(pred, NotBlank):
         return {"pattern": r"^(?!\s*$).+"}
     elif isinstance(pred, RegexPredicate):
@@ -327,7 +364,7 @@ def generate_schema_predicate(
         elif min_t is date or min_t is datetime:
             min_ = pred.minimum.isoformat()
         else:
-            min_ = pred.minimum
+            min_ = _bound_to_json(pred.minimum)
         # non-standard format min / max
         if min_t in {Decimal, date, datetime}:
             return (
@@ -348,7 +385,7 @@ def generate_schema_predicate(
         elif max_t is date or max_t is datetime:
             max_ = pred.maximum.isoformat()
         else:
-            max_ = pred.maximum
+            max_ = _bound_to_json(pred.maximum)
 
         # non-standard format min / max
         if max_t in {Decimal, date, datetime}:
@@ -365,27 +402,7 @@ def generate_schema_predicate(
             )
     elif isinstance(pred, EqualTo):
         # todo: is there a better way to do this than using enum?
-        match_t = type(pred.match)
-        if (
-            match_t is str
-            or match_t is int
-            or match_t is None
-            or match_t is float
-            or match_t is bool
-        ):
-            choice = pred.match
-        elif match_t is date:
-            choice = pred.match.isoformat()
-        elif match_t is datetime:
-            choice = pred.match.isoformat()
-        elif match_t is Decimal:
-            choice = str(pred.match)
-        elif match_t is UUID:
-            choice = str(pred.match)
-        elif match_t is bytes:
-            choice = pred.match.decode("utf-8")
-        else:
-            raise TypeError(f"got unexpected type: {type(pred.match)}")
+        choice = _choice_to_json(pred.match)
 
         return {"enum": [choice]}
     # objects
